@@ -550,6 +550,39 @@ pub fn run(tier: &str) -> i32 {
                 }
             }
         }
+        // a path that exists only as a symbolic link to nothing is a missing path
+        let dangling = format!("{}/dangling", d);
+        let _ = std::os::unix::fs::symlink(format!("{}/no-such-target", d), &dangling);
+        let dangling_guard = format!("{}/dangling.guard", d);
+        let _ = std::os::unix::fs::symlink(format!("{}/no-such-target.guard", d), &dangling_guard);
+        let dangling_json = format!("{}/dangling.json", d);
+        let _ = std::os::unix::fs::symlink(format!("{}/no-such-target.json", d), &dangling_json);
+        let tests_ok = put("c06u/pass_tests.yaml", "- input: {a: 1}\n  expectations:\n    rules:\n      p: PASS\n");
+        let mut cmds: Vec<Vec<String>> = vec![];
+        for extra in [vec![], vec!["--structured", "-o", "json", "-S", "none"], vec!["--structured", "-o", "junit", "-S", "none"]] {
+            for (r, dd) in [(pass.clone(), dangling.clone()), (pass.clone(), dangling_json.clone()), (dangling.clone(), ok_doc.clone()), (dangling_guard.clone(), ok_doc.clone())] {
+                let mut a = sv(&["validate", "-r", &r, "-d", &dd]);
+                a.extend(sv(&extra));
+                cmds.push(a);
+            }
+        }
+        for fmt in [vec![], vec!["-o", "json"]] {
+            for a0 in [sv(&["test", "-r", &pass, "-t", &dangling]), sv(&["test", "-r", &dangling_guard, "-t", &tests_ok]), sv(&["test", "--dir", &dangling])] {
+                let mut a = a0.clone();
+                a.extend(sv(&fmt));
+                cmds.push(a);
+            }
+        }
+        for argv in cmds {
+            let o = cli_inproc(&argv, "");
+            n += 1;
+            acc.traces += 1;
+            let st = o.status();
+            *acc.outcomes.entry(format!("dangling-link-exit-{}", st)).or_insert(0) += 1;
+            if o.panic.is_some() || st == 0 || st == 19 || st == 101 {
+                acc.violate(&format!("dangling-symlink:{}:exit-{}", argv[0], st), format!("{:?} with a path that is a symbolic link to nothing: exit {}", argv, st), json!({"kind":"cli","argv":argv,"stdin":"","files":{"dangling":"symbolic link to a missing target"},"expected":"a non-zero error exit","observed":format!("exit {}", st)}));
+            }
+        }
         rep.states += n;
         rep.transitions += n;
     }
